@@ -81,6 +81,9 @@ func poolScenarioP(cfg scenlib.PoolCfg, subs [][]jobSpec, closeAtEnd bool, preal
 							vsched.Event("sched", jid, scenlib.SchedErr(p.ScheduleWithTimeout(job, 9*time.Millisecond)))
 						case "invoke":
 							inv := worker.NewDefaultInvokable[int](p, func(v int) { job() })
+							if jid%2 == 0 { // the same invokable assembled through its setters
+								inv = worker.NewDefaultInvokable[int](nil, nil).SetWorkerPool(p).SetCallee(func(v int) { job() })
+							}
 							inv.Invoke(jid)
 							vsched.Event("sched", jid, "invoked")
 						}
@@ -197,6 +200,10 @@ func scenarios(tier string) []*vsched.Scenario {
 			poolScenario(cfgs[1], [][]jobSpec{{js("timed", S), js("timed-panic", S), js("plain", T)}}, false, 1, false),
 			poolScenario(cfgs[3], [][]jobSpec{{js("timed-panic", S), js("timed", S), js("plain", S)}}, false, 2, true),
 			poolScenarioP(scenlib.PoolCfg{Cap: 2, Buf: 0, Max: 1, StandBy: 0, Batch: 1}, [][]jobSpec{{js("timed", S), js("timed", S)}}, false, 1, 1, false))
+		// configured through a settings struct / SetDefaultWorkerPoolSettings + SetJobQueue instead of the individual setters
+		out = append(out,
+			poolScenario(scenlib.PoolCfg{Cap: 1, Buf: 1, Max: 1, StandBy: 1, Batch: 1, Via: "settings"}, scripts[2], false, 1, false),
+			poolScenario(scenlib.PoolCfg{Cap: 1, Buf: 2, Max: 2, StandBy: 0, Batch: 1, Via: "set-settings"}, scripts[1], false, 1, false))
 		// jammed pool: all workers busy for longer than workerJamDuration (3 ms) when a late submission wakes the spawn loop
 		out = append(out,
 			poolScenario(scenlib.PoolCfg{Cap: 2, Buf: 1, Max: 1, StandBy: 1, Batch: 1, Jam: 3 * time.Millisecond}, [][]jobSpec{{js("timed", S), js("timed", S), js("plain", "late")}}, false, 1, false),
